@@ -11,6 +11,7 @@ use crate::reg::Reg;
 #[cfg(feature = "c05")] pub mod c05;
 #[cfg(feature = "c13")] pub mod c13;
 #[cfg(feature = "c16")] pub mod c16;
+#[cfg(feature = "c14")] pub mod c14;
 
 pub fn register(prop: &str, reg: &mut Reg) {
     match prop {
@@ -24,6 +25,7 @@ pub fn register(prop: &str, reg: &mut Reg) {
         #[cfg(feature = "c05")] "C05" => c05::register(reg),
         #[cfg(feature = "c13")] "C13" => c13::register(reg),
         #[cfg(feature = "c16")] "C16" => c16::register(reg),
+        #[cfg(feature = "c14")] "C14" => c14::register(reg),
         _ => { eprintln!("symx: property {} not available in this build", prop); std::process::exit(2); }
     }
 }
